@@ -117,6 +117,32 @@ func checkC04(c *Ctx, r *Report) {
 		// C04.c schemes declared as configured
 		checkSecuritySchemes(c, r, "C04.c", e.Ver, e.Pkg)
 	}
+	// the router enforces the names and scopes verbatim: they are emitted raw ({{{ }}}), not HTML-escaped
+	for _, en := range c.T.Order {
+		eng := c.T.Engines[en]
+		t := eng.Partials["AuthorizationCall"]
+		viol := ""
+		var sites []string
+		n := 0
+		if t == nil {
+			viol = en + ": AuthorizationCall partial missing"
+		} else {
+			for _, em := range eng.Emits {
+				if em.Tpl != "AuthorizationCall" {
+					continue
+				}
+				n++
+				sites = append(sites, tplSite(t, eng, em.Line))
+				if !em.Unescaped {
+					viol = fmt.Sprintf("%s: `{{%s}}` in the SecurityCheckList is HTML-escaped by raymond (use {{{ }}}): a scheme name or scope containing & < > ' \" = is enforced by the router as &amp; &lt; ... while the spec documents the raw text", tplSite(t, eng, em.Line), em.Expr)
+				}
+			}
+			if n < 2 {
+				viol = fmt.Sprintf("%s: expected the scheme name and the scopes to be emitted in AuthorizationCall, found %d output positions", en, n)
+			}
+		}
+		r.add("C04.c", "tpl-types", en+":AuthorizationCall:raw-names-and-scopes", en+": security scheme names and scopes reach the router exactly as annotated", []string{"generator/templates/" + en + "/partials/authorization.call.hbs"}, sites, viol)
+	}
 
 	// neither emitter consults the controller-level list
 	ctrl := w.lookupType("definitions", "ControllerMetadata")
